@@ -1361,6 +1361,14 @@ def generate(pid, tier, seed):
                     if body:
                         extra.append([c[0].replace("elem=u32", f"elem={kind}").replace(f"case {pid}-", f"case {pid}k-")] + body + ["end"])
         cases = cases + extra
+    # the element size is not a parameter of the model and must not be one of the code: for every property a sample of the u32
+    # cases is repeated on `wide` (a 96-byte Copy cell that supports every operation u32 does and shows torn cells)
+    rng = random.Random(seed + 9696)
+    wide = []
+    for c in cases:
+        if c[0].endswith("elem=u32") and rng.random() < (0.12 if tier == "quick" else 0.25):
+            wide.append([c[0].replace("elem=u32", "elem=wide").replace(f"case {pid}-", f"case {pid}w-")] + c[1:])
+    cases = cases + wide
     if pid in HUGE_PIDS:
         cases = cases + gen_huge(pid, tier, seed)
     return cases
